@@ -121,7 +121,39 @@ def C16(tier):
                 trusted=["catch_unwind outcome classification (a worker abort or timeout is reported as its own outcome and is never accepted)"])
 
 
-PLANS = {"C15": C15, "C02": C02, "C16": C16}
+FIX3 = dict(FixF3=True)
+
+NAN_ASSUME = [
+    "is_nan / is_none of the element types are lawful; behaviour of the compaction depends only on the missing/non-missing pattern",
+    "the harness reads results back through the parent buffer (original element type), never through the NotNan-typed view",
+]
+
+
+def C04(tier):
+    models = [
+        dict(module="RemoveNan", name="MC_RemoveNan",
+             cfg=dict(constants=dict(FIX3, MaxLen=q(tier, 6, 8), MaxStride=3, Offsets="{0, 2}", Kinds='{"float", "option"}', Emit=False),
+                      invariants=["CursorInv", "LoopInv", "FrameInv", "DoneOK", "TwinOK", "IdempotentOK"], properties=["Terminates"])),
+        dict(module="RemoveNan", name="MC_RemoveNan_emit", emit=True,
+             cfg=dict(constants=dict(FIX3, MaxLen=q(tier, 5, 7), MaxStride=3, Offsets="{0, 2}", Kinds='{"float"}', Emit=True),
+                      invariants=["DoneOK", "EmitInv"])),
+    ]
+    stages = [
+        dict(name="replay_all_types", family="nan", trace="Trace_Nan", trace_constants=FIX3, profile="dev",
+             cases_from=["MC_RemoveNan_emit"], params={"types": "all" if tier == "thorough" else "f32/f64/opt_u8/opt_i32/opt_i128/opt_n64"}),
+        dict(name="random_nd", family="nan", trace="Trace_Nan", trace_constants=FIX3, profile="dev",
+             gen=dict(count=(3000, 30000))),
+        dict(name="random_release", family="nan", trace="Trace_Nan", trace_constants=FIX3, profile="release",
+             gen=dict(count=(1500, 10000))),
+    ]
+    return dict(models=models, stages=stages, nontrivial=lambda o: o.get("vin", {}).get("len", 2) >= 2, exhaustive=True,
+                rule="every missing/non-missing pattern of length 0..N x strides -3..3 x offsets {0,2} emitted by TLC, replayed for the element "
+                     "types (all 14 in the thorough tier); randomized lanes to 30 elements with strides to +-4 and lanes of 1..3-D arrays in C/F "
+                     "order, sliced/stepped/reversed/permuted views, along every axis, via map_axis_skipnan_mut; non-trivial = lane of >= 2 elements",
+                assumptions=NAN_ASSUME, trusted=["address projection: (as_ptr - parent base) / size_of, len, stride of the returned view"])
+
+
+PLANS = {"C15": C15, "C02": C02, "C16": C16, "C04": C04}
 
 HOOK_COMMITS = ["6df096f"]
 
